@@ -5,7 +5,11 @@ raising at position k) on a real Daemon (both server types) and then run a plan 
 drop (the network resets the proxy's connection between two calls) / advance steps; on the thread server a COMMTIMEOUT may
 additionally make the server close idle connections by itself.  A 'par' step releases two client threads of different
 proxies at the same instant (one loses / releases its connection, the other opens / fetches from / closes one of its own
-streams), and a client thread may carry a fixed correlation id (documented client API) with every call.  The driver hands the steps to the owning client thread one at a time, so the plan order is the real order of
+streams), and a client thread may carry a fixed correlation id (documented client API) with every call.  A next() may carry an
+in-flight fault: a middlebox loses the reply of that get_next_stream_item call (connection reset, or - with a proxy timeout -
+the reply never arrives), with config.MAX_RETRIES in {0,1,2}.  Plan variants: 'combined' (streams on a second daemon served by
+the first one's multiplex loop) and 'external_loop' (the daemon is never run by requestLoop(): a harness thread plays the
+application's own select loop over daemon.sockets and calls daemon.events()).  The driver hands the steps to the owning client thread one at a time, so the plan order is the real order of
 client operations; everything the server does on its own (housekeeping on its timers, noticing a disconnect, running the
 one-way close_stream call in its own thread) interleaves freely with them.
 
@@ -21,7 +25,8 @@ import uuid
 
 from ..world import World
 from .. import sched as S
-from .common import Server, SERIALIZERS, break_conn
+from .. import net as N
+from .common import Server, SERIALIZERS, break_conn, install_script
 from ..seams import config, CL, SV
 import Pyro5.api as api
 import Pyro5.errors as E
@@ -130,6 +135,43 @@ class ObsDaemon(SV.Daemon):
             _obs("disc-end", _conn_of(conn), err)
 
 
+class _OwnLoop:
+    """a daemon that is never run by requestLoop(): a harness thread plays the application's own event loop
+    (documented pattern, examples/eventloop): select over daemon.sockets, hand the readable ones to daemon.events()"""
+
+    def __init__(self, ctx, servertype, commtimeout, pool=(1, 8)):
+        config.SERVERTYPE = servertype
+        config.THREADPOOL_SIZE_MIN, config.THREADPOOL_SIZE = pool
+        config.COMMTIMEOUT = commtimeout
+        config.POLLTIMEOUT = POLL
+        self.daemon = ObsDaemon(host="127.0.0.1", port=0)
+        self.stop = False
+        net, daemon = ctx.net, self.daemon
+
+        def own_loop():
+            while not self.stop:
+                sel = N.SimSelector(net)
+                for sk in daemon.sockets:
+                    sel.register(sk, 1)
+                ready = [k.fileobj for k, _ in sel.select(POLL)]
+                sel.close()
+                if ready and not self.stop:
+                    daemon.events(ready)
+
+        self.loop = threading.Thread(target=own_loop, name="daemon-loop")
+        self.loop.start()
+        self.loop_t = ctx.sched.sim_thread_of(self.loop)
+
+    def register(self, obj, oid):
+        return self.daemon.register(obj, oid)
+
+    def loop_alive(self):
+        return self.loop_t.state != "done"
+
+    def loop_death(self):
+        return self.loop_t.died
+
+
 _CODES = None
 
 
@@ -163,11 +205,13 @@ class StreamWorld(World):
               "reconnect_within_linger", "reconnect_after_linger", "terminated_error", "client_local_closed",
               "streaming_disabled", "two_proxies", "concurrent_streams", "multiplex", "thread", "housekeeping_observed",
               "temp_proxy_close", "client_local_stop", "preempted", "raced",
-              "connection_dropped", "continued_after_drop", "concurrent_ops", "client_correlation_id", "disconnect_during_table_change", "chatter", "combined", "combined_slave_idle_expiry"]
+              "connection_dropped", "continued_after_drop", "concurrent_ops", "client_correlation_id", "disconnect_during_table_change", "chatter", "combined", "combined_slave_idle_expiry", "external_loop", "reply_lost", "continued_after_lost_reply"]
     # also counted, but too schedule-dependent to demand: "fetch_before_old_disconnect", "expired_but_still_answers"
     RULE = ("plan = (server type, serializer, ITER_STREAMING on/off, ITER_STREAM_LIFETIME in {0,5,20}, ITER_STREAM_LINGER in "
             "{0,3,10}, 18% of the multiplex plans 'combined': the streams live on a second daemon served by the first one's loop (Daemon.combine), "
-            "violation keys then end in ':combined', 1-2 proxies, 1-4 stream sources (generator/list, 0-8 items, optional ValueError at position k), 6-26 ops "
+            "violation keys then end in ':combined', 12% of the other plans 'external_loop' (own select loop + daemon.events(), keys end in "
+            "':external-loop'), next ops may carry an in-flight fault reply_rst / reply_timeout with MAX_RETRIES in {0,1,2} and an optional "
+            "1 s proxy timeout, 1-2 proxies, 1-4 stream sources (generator/list, 0-8 items, optional ValueError at position k), 6-26 ops "
             "open/next/close/release/reconnect/drop/advance{0.5..30 s} with optional settle after each (drop = the network resets "
             "the proxy's connection while nothing is in flight; 15% of the thread-server plans also set COMMTIMEOUT=3 s so that the "
             "server closes idle connections itself; par = {release|drop of one proxy} concurrently with {open|next|close on a stream "
@@ -187,6 +231,12 @@ class StreamWorld(World):
                    "not in the table) even if no housekeeping pass was observed - the current servers run a pass at least every "
                    "POLLTIMEOUT whatever the traffic; a gap above the bound is only counted (probe housekeeping_gap_over_bound), "
                    "the violation is the stream that outlives its limits",
+                   "a fetch whose reply is lost after the server executed it ends with a communication error for the caller, who thereby "
+                   "knows that one item may be missing; the model advances the cursor exactly when the server certainly ran the fetch and "
+                   "keeps both cursors otherwise; stream fetches are never retried whatever MAX_RETRIES says (a next() that makes two "
+                   "fetches and returns normally has lost an item silently: item-lost/retried-fetch); other calls (open) may be retried",
+                   "external_loop on the multiplex server: the daemon can only housekeep when the application hands it an event; before the "
+                   "final look at the table the driver therefore makes one unrelated connection",
                    "the background 'chatter' client (30% of the plans: one ping every POLLTIMEOUT/4 s on its own connection) is not part "
                    "of the model",
                    "when the server's disconnect step fails before reaching the clientDisconnect hook the connection has ended all the "
@@ -257,7 +307,18 @@ class StreamWorld(World):
                 ops.append({"op": "advance", "dt": rng.choice(ADVANCES)})
             elif r < 0.885:
                 ops.append(st({"op": "drop", "p": rng.randrange(nprox)}))
-            elif r < 0.905 and nprox == 2:
+            elif r < 0.90:
+                # a fault INSIDE a fetch: the server executes it, the reply is lost (connection reset / client timeout)
+                s = some_stream()
+                ops.append(st({"op": "next", "s": s, "fault": rng.choice(["reply_rst", "reply_timeout"])}))
+                if rng.random() < 0.8:
+                    if rng.random() < 0.4:
+                        ops.append({"op": "advance", "dt": rng.choice([0.5, 2, 4])})
+                    ops.append(st({"op": "reconnect", "p": streams[s]["proxy"]}))
+                    ops.append(st({"op": "next", "s": s}))
+                    if rng.random() < 0.5:
+                        ops.append(st({"op": "next", "s": s}))
+            elif r < 0.915 and nprox == 2:
                 # two clients at the same instant: one loses / releases its connection, the other works on one of its streams
                 s = some_stream()
                 ops.append(st({"op": "par", "a": {"op": rng.choice(["release", "drop"]), "p": 1 - streams[s]["proxy"]},
@@ -377,11 +438,17 @@ class StreamWorld(World):
                 "lifetime": lifetime, "linger": linger, "nproxies": nprox, "streams": streams, "ops": ops,
                 "commtimeout": commtimeout, "corr": corr, "chatter": chatter, "lines": lines, "p_line": p_line, "p_block": p_block,
                 "net": {"shuffle_select": rng.random() < 0.5}}
+        if any(o.get("fault") for o in ops):
+            plan["retries"] = rng.choice([0, 1, 2])             # config.MAX_RETRIES: must not apply to stream fetches
+            plan["timeout"] = rng.choice([None, 1.0, 1.0])      # proxy timeout (virtual s); without it reply_timeout acts as reply_rst
         if servertype == "multiplex" and rng.random() < 0.18:
             # the stream sources live on a SECOND daemon that is combined into the first one's multiplex loop (Daemon.combine);
             # the background client, if any, talks to the master (master busy, slave idle) or to the slave
             plan["combined"] = True
             plan["chatter_on"] = rng.choice(["master", "master", "slave"])
+        elif rng.random() < 0.12:
+            # the daemon is never run by requestLoop(): the application's own loop selects on daemon.sockets and calls daemon.events()
+            plan["external_loop"] = True
         return plan
 
     def line_codes(self, plan):
@@ -417,15 +484,16 @@ class StreamWorld(World):
         config.ITER_STREAMING = bool(plan["streaming"])
         config.ITER_STREAM_LIFETIME = float(plan["lifetime"])
         config.ITER_STREAM_LINGER = float(plan["linger"])
-        config.MAX_RETRIES = 0
+        config.MAX_RETRIES = int(plan.get("retries") or 0)
         ctx.probe(plan["servertype"])
         run = _Run.cur = {"sched": sched, "obs": []}
         its = {}
-        if plan.get("combined"):
-            plain = ctx.violate     # signatures of the combined-daemon variant are told apart by their key
+        variant = "combined" if plan.get("combined") else ("external-loop" if plan.get("external_loop") else None)
+        if variant:
+            plain = ctx.violate     # signatures of the combined-daemon / external-loop variants are told apart by their key
 
             def violate(kind, key="", msg=""):
-                plain(kind, (str(key) + ":combined") if key else "combined", msg)
+                plain(kind, (str(key) + ":" + variant) if key else variant, msg)
             ctx.violate = violate
         try:
             self._drive(ctx, run, its)
@@ -449,11 +517,35 @@ class StreamWorld(World):
             srv.daemon.combine(daemon)
             uri = daemon.register(Src(), "src")
             ctx.probe("combined")
+        elif plan.get("external_loop"):
+            srv = _OwnLoop(ctx, plan["servertype"], float(plan.get("commtimeout") or 0.0))
+            daemon = srv.daemon
+            uri = srv.register(Src(), "src")
+            ctx.probe("external_loop")
         else:
             srv = Server(ctx, plan["servertype"], daemon_cls=ObsDaemon, commtimeout=float(plan.get("commtimeout") or 0.0),
                          polltimeout=POLL)
             daemon = srv.daemon
             uri = srv.register(Src(), "src")
+        # ---- in-flight faults: a middlebox that loses the reply of one armed get_next_stream_item call
+        farm = {"arm": None}
+        if any(isinstance(o, dict) and o.get("fault") for o in plan["ops"]):
+            def c2s(pipe, k, info, raw):
+                return True
+
+            def s2c(pipe, k, info, raw):
+                arm = farm["arm"]
+                if arm is None or info["type"] != N.MSG_RESULT or pipe.conn != arm["conn"]:
+                    return True
+                farm["arm"] = None
+                arm["rec"]["fault_fired"] = arm["kind"]
+                ctx.fault(arm["kind"])
+                sched.ev("fault", arm["kind"], pipe.conn)
+                if arm["kind"] == "reply_rst":
+                    c, sv = net.conns[pipe.conn]
+                    break_conn(c, sv)       # the reply is lost with the connection: the client sees a reset
+                return None                 # reply_timeout: the reply never arrives, the client's own timeout ends the call
+            install_script(net, c2s, s2c)
         t_start = sched.now
         chat = {"stop": False, "calls": 0, "errors": 0}
         if plan.get("chatter"):
@@ -490,6 +582,9 @@ class StreamWorld(World):
                 it = its[s]
                 rec["it_alive"] = it.proxy is not None
                 rec["in_sync"] = it.proxy is not None and it.pyroseq == it.proxy._pyroSeq
+            if kind == "next" and op.get("fault") and rec["conn_before"] is not None:
+                fk = op["fault"] if (op["fault"] == "reply_rst" or proxy._pyroTimeout) else "reply_rst"
+                farm["arm"] = {"conn": rec["conn_before"], "kind": fk, "rec": rec}
             try:
                 if kind == "open":
                     sd = streams[s]
@@ -528,6 +623,7 @@ class StreamWorld(World):
                 out = ("error", type(x).__name__, str(x)[:100])
             except Exception as x:  # noqa - e.g. a KeyError raised remotely
                 out = ("error", type(x).__name__, str(x)[:100])
+            farm["arm"] = None
             rec["out"] = out
             rec["ret"] = sched.stamp()
             rec["t1"] = sched.now
@@ -543,6 +639,8 @@ class StreamWorld(World):
                 cctx.correlation_id = uuid.UUID(int=((plan.get("seed", 0) + 1) * 1000003 + 7919 * (k + 1)) & ((1 << 128) - 1), version=4)
                 corr_used[0] = True
             proxy = CL.Proxy(uri)
+            if plan.get("timeout"):
+                proxy._pyroTimeout = float(plan["timeout"])
             proxies[p] = proxy
             box = boxes[p]
             while True:
@@ -687,11 +785,29 @@ class StreamWorld(World):
             else:
                 single(op)
 
+        def poke():
+            """an externally driven multiplex daemon can only housekeep when the application hands it an event: give it one (an
+            unrelated connection) before looking at its table"""
+            if not (plan.get("external_loop") and plan["servertype"] == "multiplex") or state["hung"]:
+                return
+
+            def run_poke():
+                try:
+                    with CL.Proxy(uri) as px:
+                        px._pyroBind()
+                except Exception:  # noqa
+                    pass
+            pk = threading.Thread(target=run_poke, name="poke")
+            pk.start()
+            pk.join(600.0)
+            sched.settle(5.0)
+
         # ---- end of run: close everything, look; release everything, wait for every expiry plus housekeeping, look again
         if not state["hung"]:
             for s in sorted(its):
                 run_op(streams[s]["proxy"], {"op": "close", "s": s, "final": True})
             sched.settle(5.0)
+            poke()
             _obs("snap", tuple(sorted(daemon.streaming_responses)), "after-close")
         if not state["hung"]:
             for p in range(nprox):
@@ -699,8 +815,11 @@ class StreamWorld(World):
             sched.settle(5.0)
             sched.sleep(max(life, linger) + 3 * POLL + 1.0)
             sched.settle(5.0)
+            poke()
             _obs("snap", tuple(sorted(daemon.streaming_responses)), "final")
         chat["stop"] = True
+        if hasattr(srv, "stop"):
+            srv.stop = True
         ctx.info["chatter"] = [chat["calls"], chat["errors"]]
         for p in range(nprox):
             if boxes[p]["done"]:
@@ -856,16 +975,64 @@ class StreamWorld(World):
                 return ("error",) + tuple(out[1:])
             return out      # closed / comm / opened / value / ok
 
+        def normal_at(sl, cur):
+            if cur < sl["nitems"]:
+                return ("item", [sl["i"], cur])
+            if sl["end"] == "exc":
+                return ("genexc", "boom-%d-%d" % (sl["i"], cur))
+            return ("stop",)
+
+        def expirable(sl, a, now, conn):
+            if life > 0 and now - sl["created"] >= life - EPS:
+                return True
+            if a[0] == "linger" and now - a[1] >= linger - EPS:
+                return True
+            return a[0] == "live" and a[1] != conn and linger <= 0
+
+        def on_fetch_lost(sl, now, conn, op):
+            """the server executes the fetch, the client never sees the answer (and is told so by a communication error)"""
+            if sl.get("maybe") or fuzzy(sl):
+                # already uncertain (an earlier lost reply, or overlapping steps): one more item may be gone; weak checks from here on
+                sl["fuzzy"] = True
+                sl["maybe"] = sl.get("maybe", 0) + 1
+                sl["S"] = set(sl["S"]) | {("live", conn), GONE}
+                op["lost_consumed"] = "?"
+                return
+            normal = normal_at(sl, sl["cursor"])
+            ns = set()
+            possible, certain = False, True
+            for a in sl["S"]:
+                if a == GONE:
+                    ns.add(GONE)
+                    certain = False
+                    continue
+                if expirable(sl, a, now, conn):
+                    ns.add(GONE)
+                    certain = False
+                possible = True
+                ns.add(("live", a[1] if a[0] == "live" else conn) if normal[0] == "item" else GONE)
+            sl["S"] = ns
+            if possible and normal[0] == "item":
+                op["lost_consumed"] = normal[1]
+                if certain:
+                    sl["cursor"] += 1
+                else:
+                    sl["maybe"] = 1         # cursor or cursor + 1: decided by the next answer
+            elif possible and sl["reason"] is None:
+                sl["reason"] = "exhausted" if normal[0] == "stop" else "failed (generator raised)"
+
         def on_fetch(sl, now, conn, op):
             out = classify(op["out"])
             i = sl["i"]
+            if sl.get("maybe") and out[0] in ("item", "stop", "genexc"):
+                # earlier fetches whose replies were lost may or may not have consumed an item each: the answer decides
+                for d in range(sl["maybe"] + 1):
+                    if normal_at(sl, sl["cursor"] + d) == out:
+                        sl["cursor"] += d
+                        break
+                sl["maybe"] = 0
             cur = sl["cursor"]
-            if cur < sl["nitems"]:
-                normal = ("item", [i, cur])
-            elif sl["end"] == "exc":
-                normal = ("genexc", "boom-%d-%d" % (i, cur))
-            else:
-                normal = ("stop",)
+            normal = normal_at(sl, cur)
             if out[0] == "item":
                 v = out[1]
                 # clause 1 holds for every stream, raced or not: gap-free, duplicate-free prefix of its own source
@@ -924,6 +1091,8 @@ class StreamWorld(World):
                         flags["interesting"] += 1
                         if sl.get("conn_error"):
                             ctx.probe("continued_after_drop")
+                        if sl.get("lost_reply"):
+                            ctx.probe("continued_after_lost_reply")
                     if any(a[0] == "live" and a[1] != conn for a in sl["S"]):
                         ctx.probe("fetch_before_old_disconnect")
                     if may_expired:
@@ -1050,10 +1219,13 @@ class StreamWorld(World):
                     sl = slots[cur_op["s"]]
                     if sl["broken"] or sl["S"] is None:
                         continue
-                    if cur_op["fetches"] > 1:
+                    if cur_op["fetches"] > 1 and not cur_op.get("fault_fired"):
                         bad(sl, "unexpected-server-call", "refetch", "one next() caused %d item fetches" % cur_op["fetches"])
                         continue
-                    on_fetch(sl, now, o[4], cur_op)
+                    if cur_op.get("fault_fired") and cur_op["fetches"] == 1:
+                        on_fetch_lost(sl, now, o[4], cur_op)    # the server runs the fetch, its reply never reaches the client
+                    else:
+                        on_fetch(sl, now, o[4], cur_op)
                 elif kind == "closex":
                     for sl in slots:
                         if sl["sid"] == o[3] and sl["S"] is not None:
@@ -1148,11 +1320,13 @@ class StreamWorld(World):
             dead_now = o["conn_before"] is not None and o["conn_before"] in dead
             commfail = out[0] == "comm" or (out[0] == "closed" and (kind != "next" or o["was_connected"]))
             if commfail:
-                if not dead_now or o.get("fetches"):
+                if not ((dead_now and not o.get("fetches")) or o.get("fault_fired")):
                     ctx.violate("unexpected-outcome", "comm:" + kind, "%s failed with a communication error %r although its connection "
                                 "was neither dropped nor closed by the server" % (kind, out))
                     return
-                ctx.probe("connection_dropped")
+                ctx.probe("reply_lost" if o.get("fault_fired") else "connection_dropped")
+                if o.get("fault_fired") and kind == "next":
+                    slots[o["s"]]["lost_reply"] = True
                 if o["connected"]:
                     ctx.violate("unexpected-outcome", "not-released", "%s failed with %r but the proxy kept its dead connection" % (kind, out))
                     return
@@ -1160,7 +1334,7 @@ class StreamWorld(World):
                     sl = slots[o["s"]]
                     if not sl["it_alive"] and not sl["broken"]:
                         bad(sl, "missing-stopiteration", "after-end", "next() on an exhausted / closed iterator ended %r" % (out,))
-                    sl["conn_error"] = True     # no item was consumed: the request never reached the server
+                    sl["conn_error"] = True     # no item was consumed unless the server ran the fetch and its reply was lost
                 # open: the stream was never created; close (in sync): close_stream was never sent, the iterator stays usable
                 continue
             if kind == "open":
@@ -1181,6 +1355,11 @@ class StreamWorld(World):
                         bad(sl, "streaming-disabled-not-refused", out[0], "ITER_STREAMING is off; expected ProtocolError, the call ended %r" % (out,))
             elif kind == "next":
                 sl = slots[o["s"]]
+                if o.get("fault_fired") and o["fetches"] >= 2 and o.get("lost_consumed") and out[0] in ("item", "stop", "genexc") \
+                        and not sl["broken"]:
+                    bad(sl, "item-lost", "retried-fetch", "the reply of a fetch was lost (%s) after the server had taken item %r out of the "
+                        "iterator; next() silently fetched again (%d fetches, MAX_RETRIES=%s) and ended %r: the item is lost and no error "
+                        "told the caller" % (o["fault_fired"], o["lost_consumed"], o["fetches"], plan.get("retries"), out))
                 if not o["fetches"] and not sl["broken"]:
                     if not sl["it_alive"]:
                         if out[0] == "stop":
